@@ -684,9 +684,16 @@ func (r *allocRun) doFree() {
 			if r.rng.Intn(3) == 0 {
 				l = p.Page - int(min64(uint64(p.Page), uint64(p.Page-c0(p))))
 			}
-			ip := r.addrIn(b, true).Mask(net.CIDRMask(l, 128))
+			lit := r.addrIn(b, true)
+			ip := lit.Mask(net.CIDRMask(l, 128))
 			class, wide = "wider-than-block", true
 			target.IP = ip
+			if r.rng.Intn(2) == 0 {
+				// the same prefix written with the address it was derived from (2001:db8:0:7::/60): an IPNet with
+				// host bits is the network its mask selects - whatever this Free is, it is the same Free
+				target.IP = lit
+				class = "wider-than-block-host-bits"
+			}
 			setMask(l)
 			if v, ok := p.AddrValue(ip); ok {
 				if idx, in, _ := p.Locate(v); in {
